@@ -80,6 +80,19 @@ def every_iteration_passes(V, header, nodes):
     return bool(starts)
 
 
+def every_iteration_passes_while(V, wtest, nodes):
+    """every path from the T edge of a while test back to the test passes one of nodes"""
+    via = set(V.ids(nodes))
+    V.ctx.paths += 1
+    starts = [b for b, lab in V.cfg.succ[wtest.id] if lab == "T"]
+    for s in starts:
+        if s in via:
+            continue
+        if wtest.id in V.cfg.reachable(s, removed_nodes=via):
+            return False
+    return bool(starts)
+
+
 def call_in_loop(V, loop_pat, call_pat):
     """cfg call nodes for call_pat that sit inside a for-loop over loop_pat"""
     out = []
